@@ -20,19 +20,20 @@ func c02(e *Env) {
 	cfg := swarmWorld(e)
 	shape := c.Choose("c02shape", 8)
 	p := fwdParams{
-		Hosts:        1 + c.Choose("hosts", 3),
-		NumConns:     1 + c.Choose("numconns", 2),
-		Clients:      2 + c.Choose("clients", 3),
-		OpsPerClient: 20 + c.Choose("ops", 60),
-		MaxInflight:  1 + c.Choose("inflight", 24),
-		ErrPerMille:  []int{0, 250}[c.Choose("errrate", 2)],
-		Faults:       0,
-		Kinds:        []int{50, 8, 25, 10, 3, 2, 0, 0, 1, 2},
-		Compression:  []string{"", "", "lz4", "snappy"},
-		Versions:     []primitive.ProtocolVersion{primitive.ProtocolVersion4, primitive.ProtocolVersion3},
-		LowestFree:   true,
-		CheckTokens:  true,
-		FaultFree:    true,
+		SystemPrepares: true,
+		Hosts:          1 + c.Choose("hosts", 3),
+		NumConns:       1 + c.Choose("numconns", 2),
+		Clients:        2 + c.Choose("clients", 3),
+		OpsPerClient:   20 + c.Choose("ops", 60),
+		MaxInflight:    1 + c.Choose("inflight", 24),
+		ErrPerMille:    []int{0, 250}[c.Choose("errrate", 2)],
+		Faults:         0,
+		Kinds:          []int{50, 8, 25, 10, 3, 2, 0, 0, 1, 2},
+		Compression:    []string{"", "", "lz4", "snappy"},
+		Versions:       []primitive.ProtocolVersion{primitive.ProtocolVersion4, primitive.ProtocolVersion3},
+		LowestFree:     true,
+		CheckTokens:    true,
+		FaultFree:      true,
 	}
 	name := "mixed"
 	switch {
@@ -73,6 +74,17 @@ func c02(e *Env) {
 	f := newFwd(e, p, cfg)
 	if !f.bootOK() || !f.connectClients() {
 		return
+	}
+	if name == "exhaust" && c.Choose("heartbeat-outstanding", 2) == 1 {
+		// the proxy's own heartbeat is in flight (the node is slow to answer it) while the
+		// clients' requests use up every stream id of the connection
+		// (the node reads nothing until the workload has been sent; then it resumes or dies)
+		f.w.Nodes[0].Stalled = true
+		f.w.RunUntil(func() bool { return false }, cfg.Heartbeat+time.Second)
+		e.Res.Stats["probe.c02.heartbeat_outstanding_during_exhaustion"]++
+		if f.w.Stopped() {
+			return
+		}
 	}
 	if name == "late" {
 		c02Late(e, f, int(cfg.MaxStreams))
